@@ -95,7 +95,11 @@ func (c *cgen) node(depth int) *cnode {
 	case "lambda":
 		// ((fn [a] body...) arg)
 		return &cnode{kind: k, kids: append([]*cnode{c.node(depth - 1)}, c.seq(depth-1, 1)...)}
-	case "mapf", "loop":
+	case "mapf":
+		// flag: map over a LIST (MapList) instead of an array (MapArray) — two separate loops in the
+		// implementation, each of which has to hand a callback's error on from EVERY element
+		return &cnode{kind: k, n: 1 + r.Intn(3), flag: r.Intn(2) == 0, kids: c.seq(depth-1, 1)}
+	case "loop":
 		return &cnode{kind: k, n: 1 + r.Intn(3), kids: c.seq(depth-1, 1)}
 	case "eval":
 		return &cnode{kind: k, kids: []*cnode{c.node(depth - 1)}}
@@ -251,6 +255,9 @@ func (r *crender) render(n *cnode) string {
 		var el []string
 		for i := 1; i <= n.n; i++ {
 			el = append(el, strconv.Itoa(i))
+		}
+		if n.flag {
+			return "(map (fn [ma] " + r.many(n.kids) + ") (list " + strings.Join(el, " ") + "))"
 		}
 		return "(map (fn [ma] " + r.many(n.kids) + ") [" + strings.Join(el, " ") + "])"
 	case "loop":
